@@ -192,7 +192,8 @@ def execute(plan):
     cur = {}
     due_total = 0
     seen_first = set()
-    arrived = {}
+    arrived = {}        # message -> frame indices that have arrived so far (at any time after its first frame)
+    returned = set()
     for evno, e in enumerate(plan["events"]):
         if "other" in e:
             continue
@@ -229,6 +230,21 @@ def execute(plan):
             elif c is not None:
                 st["stray_from_older_message"] = st.get("stray_from_older_message", 0) + 1
         r = res[evno]
+        # A message whose last missing frame arrives only after a newer message has started on its stream: this tree
+        # has given it up by then, a decoder that keeps one buffer per sequence counter completes it.  The statement
+        # is satisfied either way, provided the payload is the one sent and it is returned at that frame, once.
+        got_ = arrived.setdefault(e["m"], set())
+        late_due = (not due) and i not in got_ and len(got_) == m["n"] - 1 and e["m"] not in returned and \
+            not (cur.get(key) is not None and cur[key]["m"] == e["m"])
+        got_.add(i)
+        if late_due and r[0] == "msg":
+            st["completed_after_newer_first_frame(returned)"] = st.get("completed_after_newer_first_frame(returned)", 0) + 1
+            due = True
+            due_total -= 1
+        elif late_due:
+            st["completed_after_newer_first_frame(given_up)"] = st.get("completed_after_newer_first_frame(given_up)", 0) + 1
+        if due and r[0] == "msg":
+            returned.add(e["m"])
         if due:
             due_total += 1
             want = int.from_bytes(bytes.fromhex(m["payload"]), "little")
